@@ -5,7 +5,8 @@ RD=${SEED_ROUND:-}; SRC=/tmp/seeded-out$RD/$ID; WT=/tmp/wt$RD-$ID
 RUN=$SRC/RUN$N.md
 DEMO=$(ls $SRC/demo$N.* 2>/dev/null | head -1)
 DEST=$(grep -oE "cp +[^ ]*demo$N[^ ]* +[^ ]+" $RUN | head -1 | awk '{print $NF}')
-CMD=$(grep -oE "cargo test --offline[^\`\"]*(--test|--example|--bin) [A-Za-z0-9_]+" $RUN | head -1)
+DEST=$(echo "$DEST" | sed -E 's#^(\$[A-Za-z_{}]+|<[^>]+>|/tmp/wt[0-9]*-C[0-9]+)/##')
+CMD=$(grep -oE "cargo (test|run) --offline[^\`\"]*(--test|--example|--bin) [A-Za-z0-9_]+" $RUN | head -1)
 if [ -z "$DEST" ] || [ -z "$CMD" ]; then echo "$ID s$N CANNOT PARSE RUN FILE (dest=$DEST cmd=$CMD)"; exit 2; fi
 R=$(/verif/tools/seeded_confirm.sh $WT $SRC/patch$N.diff $DEMO $DEST $CMD -q 2>&1 | grep -aE "CONFIRMED|FAILED:|suite failures" | tr '\n' ' ')
 echo "$ID s$N dest=$DEST :: $R"
